@@ -36,7 +36,7 @@ CONFIG = dict(
     trivial=r"^(bad-op|r=(refused|none|-|ack:none|info) pub= upd= stop=0 sent= st=working)$",
     rule="cases generated from one PRNG (VERIF_SEED): hosted service sets of size 0-4 (scripted raw actors whose support answer is an "
          "explicit op, real NodeServices answering ok / no / "" (listener ignoring queryretire) / without listener, services unresolvable at start) x node service list read by the real App.FilterSelfServices from a generated config dir with unconfigured names first/middle/last x StopNode regime of the recording INodeApp (completion later through an op / inside the call with true / with false) x provider latency (the real App.UpdateNodeState with a stub cluster provider whose k-th update takes 0-500 ms of virtual time: none / random / first slow then fast) x histories of up to 14 ops over "
-         "{stat, retire, exit, web_retire, web_exit, web_nodes, unknown commands, support answer ok/other by service i, GetService(s_i) turning nil / back (unresolvable at retire time), retired by "
+         "{stat, retire, exit, web_retire, web_exit, web_nodes, unknown commands, support answer ok/other by service i, s_i leaving / rejoining the node's member record in the real cluster directory behind the real App.GetService (unresolvable at retire time), the directory reflecting the published node state back (at once / on a reflect op; retire repeated after the reflection), retired by "
          "service i / unknown name / out-of-range index, other service commands, StopNode completion true/false, 40 s time-out}; two "
          "thirds of the cases follow the intended life cycle with random insertions, omissions and repetitions (so that exiting/exited "
          "are reached often), one third is uniformly random; thorough adds every history of length 6 over a 7-letter alphabet on two "
